@@ -946,6 +946,29 @@ def mon_c18(cfg, steps):
             else:
                 if prev and (cur["lpkts"] != prev["lpkts"] or cur["lwaits"] != prev["lwaits"]):
                     out.append({"step": s.idx, "what": "%s altered the tracked transfers" % t[1]})
+                # field-by-field translation of the configuration: every value the newer layout retains is unchanged
+                pc = {o[0]: o[1:] for o in (prev["cfg"] if prev else [])}
+                cc = {o[0]: o[1:] for o in cur["cfg"]}
+                if t[1] == "v0418" and "mg.cfg0418" in pc and "mg.cfg0420" in cc:
+                    a = pc["mg.cfg0418"]; b = cc["mg.cfg0420"]
+                    names = ["native_denom", "lst_denom", "treasury", "monitors", "validators", "batch_period", "unbonding_period", "fee", "staker",
+                             "collector", "minimum", "channel", "stopped", "oracle_address"]
+                    exp = [a[0], a[1], a[2], a[4], a[5], a[6], a[7], a[8], a[9], a[10], a[11], a[12], a[13], a[16]]
+                    bad = [n for n, x, y in zip(names, exp, b[:14]) if x != y]
+                    if bad or b[14] != t[2]:
+                        out.append({"step": s.idx, "what": "0.4.18 -> 0.4.20 did not carry over config fields %r%s" % (bad, "" if b[14] == t[2] else " (send_fees_to_treasury %s, message says %s)" % (b[14], t[2]))})
+                if t[1] == "v0420" and "mg.cfg0420" in pc and "mg.cfg.native" in cc:
+                    a = pc["mg.cfg0420"]
+                    n = cc["mg.cfg.native"]; pr = cc["mg.cfg.protocol"]; fe = cc["mg.cfg.fee"]; mi = cc["mg.cfg.misc"]
+                    mons = a[3] if a[3] != "-" else "[]"
+                    pairs = [("validators", a[4], n[3]), ("unbonding_period", a[6], n[4]), ("staker", a[8], n[5]), ("collector", a[9], n[6]),
+                             ("channel", a[11], pr[1]), ("ibc denom", a[0], pr[2]), ("minimum", a[10], pr[3]), ("oracle_address", a[13], pr[4]),
+                             ("fee", a[7], fe[0]), ("treasury", a[2] if a[14] == "1" else "-", fe[1]),
+                             ("lst_denom", a[1], mi[0]), ("monitors", mons, mi[1]), ("batch_period", a[5], mi[2]), ("stopped", a[12], mi[3]),
+                             ("native token denom (message)", t[4], n[2])]
+                    bad = ["%s: %s -> %s" % (nm, x, y) for nm, x, y in pairs if x != y]
+                    if bad:
+                        out.append({"step": s.idx, "what": "0.4.20 -> 1.0.0 altered retained config values: %s" % "; ".join(bad)[:400]})
                 extra = set(cur["changed"] or []) - {"contract_info", "config"}
                 if extra:
                     out.append({"step": s.idx, "what": "%s rewrote records %r" % (t[1], sorted(extra))})
@@ -1148,4 +1171,38 @@ def mon_c16(cfg, steps):
     return out
 
 
-MONITORS = {"C16": mon_c16, "C19": mon_c19, "C20": mon_c20, "C04": mon_c04, "C15": mon_c15, "C03": mon_c03, "C08": mon_c08, "C10": mon_c10, "C11": mon_c11, "C12": mon_c12, "C05": mon_c05, "C06": mon_c06, "C17": mon_c17, "C13": mon_c13, "C14": mon_c14, "C09": mon_c09, "C07": mon_c07, "C18": mon_c18}
+# ---------------- C02 (contract level; the balance equation itself is the world monitor of worldmon.py) ----------------
+def mon_c02(cfg, steps):
+    """every payout of the staked asset is what the books say is owed to that party, no more: a Withdraw pays exactly
+    the request's share of what the batch received, the payouts of a batch never exceed what it received, FeeWithdraw
+    pays exactly the amount taken from the retained fees"""
+    out = []
+    paid = {}
+    for s in steps:
+        t = s.optoks
+        if t[0] != "exec" or s.res != "ok" or s.pre is None or s.st is None:
+            continue
+        k = t[5]; who = unhex(t[3]).decode("utf-8", "replace"); pre = s.pre
+        D = pre["protocol"]["denom"]
+        pays = [m for m in s.msgs if m["facet"] in ("msg:send", "msg:bank") and m.get("denom") == D]
+        if k == "withdraw":
+            bid = int(t[6]); b = pre["batches"].get(bid)
+            req = dict(((x, u), a) for (x, u, a) in pre["reqs"]).get((bid, who))
+            if b is None or req is None or b["status"] != "received" or not b["total"] or len(pays) != 1:
+                continue        # C05 reports those
+            owed = (b["received"] or 0) * req // b["total"]
+            got = pays[0].get("amount")
+            if got != owed:
+                out.append({"step": s.idx, "what": "PAYOUT: withdraw from batch %d paid %s of the staked asset; the request is owed floor(received %d x %d / %d) = %d" % (bid, got, b["received"] or 0, req, b["total"], owed)})
+            if not s.aborted:
+                paid[bid] = paid.get(bid, 0) + (got or 0)
+                if paid[bid] > (b["received"] or 0):
+                    out.append({"step": s.idx, "what": "PAYOUT: batch %d has paid out %d, more than the %d it received: the excess backs other claims" % (bid, paid[bid], b["received"] or 0)})
+        elif k == "feewd":
+            a = int(t[6])
+            if len(pays) != 1 or pays[0].get("amount") != a or pre["fees"] - s.st["fees"] != a:
+                out.append({"step": s.idx, "what": "PAYOUT: FeeWithdraw of %d paid %s and lowered the retained fees by %d" % (a, [m.get("amount") for m in pays], pre["fees"] - s.st["fees"])})
+    return out
+
+
+MONITORS = {"C02": mon_c02, "C16": mon_c16, "C19": mon_c19, "C20": mon_c20, "C04": mon_c04, "C15": mon_c15, "C03": mon_c03, "C08": mon_c08, "C10": mon_c10, "C11": mon_c11, "C12": mon_c12, "C05": mon_c05, "C06": mon_c06, "C17": mon_c17, "C13": mon_c13, "C14": mon_c14, "C09": mon_c09, "C07": mon_c07, "C18": mon_c18}
